@@ -36,7 +36,9 @@ def V(ctx, name, shape, cplx=False):
 def _comp(rng, n):
     k = rng.random()
     if k < 0.25:
-        return rng.randrange(-n, n)
+        v = rng.randrange(-n, n)
+        # NumPy integer scalars (loop counters of numpy.arange, argmax results) are ints too
+        return np.int64(v) if rng.random() < 0.3 else v
     if k < 0.85:
         start = rng.choice([None, None, 0, 1, -1, -2, n - 1])
         stop = rng.choice([None, None, n, n - 1, -1, 1, 0])
@@ -49,11 +51,14 @@ def gen_index(rng, shape):
     nd = len(shape)
     k = rng.random()
     if k < 0.12:
-        return rng.randrange(-shape[0], shape[0])
+        v = rng.randrange(-shape[0], shape[0])
+        return np.int64(v) if rng.random() < 0.4 else v
     if k < 0.24:
         return _comp(rng, shape[0])
     if k < 0.3:
         return Ellipsis
+    if k < 0.33:
+        return None               # bare newaxis
     comps = []
     used_ellipsis = False
     axis = 0
@@ -83,6 +88,8 @@ def index_repr(idx):
             return '...'
         if c is None:
             return 'newaxis'
+        if isinstance(c, np.integer):
+            return 'int64(%d)' % int(c)
         return str(c)
     if isinstance(idx, tuple):
         return '[' + ','.join(one(c) for c in idx) + ']'
@@ -98,6 +105,8 @@ def encode_index(idx):
             return ['e']
         if c is None:
             return ['n']
+        if isinstance(c, np.integer):
+            return ['I', int(c)]
         return ['i', int(c)]
     if isinstance(idx, tuple):
         return ['t'] + [one(c) for c in idx]
@@ -112,6 +121,8 @@ def decode_index(e):
             return Ellipsis
         if c[0] == 'n':
             return None
+        if c[0] == 'I':
+            return np.int64(c[1])
         return int(c[1])
     if e[0] == 't':
         return tuple(one(c) for c in e[1:])
@@ -277,8 +288,24 @@ def h_shapeop(ctx, op, shape, D, P, arg=None, cplx=False, operand='owned'):
         y = algopy.tile(x, arg)
         f = lambda a: np.tile(a, arg)
     elif op == 'diag':
-        y = algopy.diag(x)
-        f = lambda a: npx.NumpyProxy(npx.STUBS).diag(a) if ctx.mode == 'sym' else np.diag(a)
+        k = 0 if arg is None else int(arg)
+        y = algopy.diag(x) if arg is None else algopy.diag(x, k)
+        f = lambda a: npx.NumpyProxy(npx.STUBS).diag(a, k) if ctx.mode == 'sym' else np.diag(a, k)
+    elif op == 'diag-kw':
+        k = int(arg)
+        y = algopy.diag(x, k=k)
+        f = lambda a: npx.NumpyProxy(npx.STUBS).diag(a, k) if ctx.mode == 'sym' else np.diag(a, k)
+    elif op in ('reshape-list', 'reshape-npint'):
+        # new shape given as a list / as numpy integers (numpy.prod(x.shape), a.shape of another array)
+        newshape = list(arg) if op == 'reshape-list' else tuple(np.int64(n) for n in arg)
+        if op == 'reshape-npint' and len(arg) == 1:
+            newshape = np.int64(arg[0])
+        y = algopy.reshape(x, newshape)
+        f = lambda a: np.reshape(a, tuple(int(n) for n in arg))
+    elif op == 'flat-sum':
+        # x.flat / sum of a 0-d or n-d polynomial through the flat view
+        y = algopy.sum(x)
+        f = lambda a: np.sum(a)
     elif op == 'tril':
         y = algopy.tril(x, arg)
         f = lambda a: _tri(a, arg, True)
@@ -456,6 +483,15 @@ def units(tier, seed):
         add('tile/%s/reps=%s' % (shp, reps), 'h_shapeop', op='tile', shape=shp, D=D, P=P, arg=reps)
     for shp in [(3,), (3, 3), (2, 3)]:
         add('diag/%s' % (shp,), 'h_shapeop', op='diag', shape=shp, D=D, P=P)
+    for shp in [(3, 3), (2, 3), (3, 2), (3,)]:
+        for k in (1, -1, 2):
+            add('diag/%s/k=%d' % (shp, k), 'h_shapeop', op='diag', shape=shp, D=D, P=P, arg=k)
+    add('diag/(3, 3)/k=1 as keyword', 'h_shapeop', op='diag-kw', shape=(3, 3), D=D, P=P, arg=1)
+    add('reshape/(2, 3)->[3, 2] (list)', 'h_shapeop', op='reshape-list', shape=(2, 3), D=D, P=P, arg=(3, 2))
+    add('reshape/(2, 3)->(int64(3), int64(2))', 'h_shapeop', op='reshape-npint', shape=(2, 3), D=D, P=P, arg=(3, 2))
+    add('reshape/(2, 3)->int64(6)', 'h_shapeop', op='reshape-npint', shape=(2, 3), D=D, P=P, arg=(6,))
+    add('sum/()/0-d polynomial', 'h_shapeop', op='flat-sum', shape=(), D=D, P=P)
+    add('sum/(1,)/size-1 polynomial', 'h_shapeop', op='flat-sum', shape=(1,), D=D, P=P)
     # operands that are non-contiguous views of a larger polynomial
     for operand in ('sub', 'step', 'T', 'rev'):
         for shp in [(3, 3), (2, 3), (3,)]:
